@@ -8,7 +8,7 @@ BIN="$HERE/bin/akverif"
 need=0
 [ -x "$BIN" ] || need=1
 if [ $need = 0 ]; then
-  for f in "$HERE"/akverif/*.go "$HERE"/akverif/go.mod; do
+  for f in "$HERE"/akverif/*.go "$HERE"/akverif/*.json "$HERE"/akverif/go.mod; do
     if [ "$f" -nt "$BIN" ]; then need=1; break; fi
   done
 fi
